@@ -4,6 +4,7 @@ import PqlModel.Props.C04Shape
 import PqlModel.Props.C04ShapeQuery
 import PqlModel.Props.C04ShapeCx
 import PqlModel.Props.C04Numbers
+import PqlModel.Props.C09NumberIR
 #print axioms Pql.C04.C04_decode_string
 #print axioms Pql.C04.C04_decode_identifier
 #print axioms Pql.C04.C04_decode_string_clickhouse_partial
@@ -40,3 +41,5 @@ import PqlModel.Props.C04Numbers
 #print axioms Pql.Glue.sqlNumValue_eq_of_numOK
 #print axioms Pql.Glue.C04_number_literal_roundtrip
 #print axioms Pql.Glue.sqlNumValue_ne_decValue
+#print axioms Pql.LexIR.C04_IsInteger_on_scanned
+#print axioms Pql.LexIR.C09_IsInteger_ir
